@@ -317,6 +317,20 @@ def shard(i, n, tier, seed, rec, hb):
             rec.count("wrap_hazard_texts")
             cycle(rec, pvl, t0, f"wrap-hazard:{sep!r}:{pad}", {"pad": pad},
                   random.Random(f"C07-wrap-{seed}-{k}"))
+    # a string that ends in a dash, with units behind it, in statements whose
+    # length is slid past the wrap column (the break may fall between the two)
+    for pad in range(30, 80):
+        k += 1
+        if k % n != i:
+            continue
+        hb.beat()
+        for t0 in (f"{'n' * pad} = transect-17- <site id>\nEND\n",
+                   "a = (" + ", ".join(f"seg{j:02d}- <km>" for j in range(pad % 12 + 2))
+                   + ")\nEND\n",
+                   f"GROUP = g\n  {'n' * pad} = (1, v- <m>, 'it''s-' <m>)\nEND_GROUP\nEND\n"):
+            rec.count("wrap_hazard_texts")
+            cycle(rec, pvl, t0, f"wrap-hazard:dash-units:{pad}", {"pad": pad},
+                  random.Random(f"C07-wrapdash-{seed}-{k}"))
     files = corpus(pvl)
     for k, (name, text) in enumerate(files):
         if k % n != i:
